@@ -39,7 +39,7 @@ func propConfigs() map[string]*PropConfig {
 	add(&PropConfig{ID: "C19", Prefix: "VH_C19_", Sets: []HarnessSet{hfiles("fast", fastLib, "fast/c19.go", "fast/c06.go"), hfiles("fast/debug", "debug/c19_cmd.go")},
 		Redirect: map[string]string{"github.com/cosmos72/gomacro/gls.GoID": "vhModelGoID"},
 		Explain: "patterns A/C: the real singleStep, Interp.debug, Run.applyDebugOp (package fast) and Debugger.cmdStep/cmdNext/cmdFinish/cmdContinue, Cmds.Lookup (package fast/debug) are executed with symbolic call depths; the debugger is a counting stub; assertions state the stop rule of each command"})
-	add(&PropConfig{ID: "C13", Prefix: "VH_C13_", Sets: []HarnessSet{hfiles("fast", fastLib, "fast/c19.go", "fast/c06.go", "fast/c13.go")},
+	add(&PropConfig{ID: "C13", Prefix: "VH_C13_", Sets: []HarnessSet{hfiles("fast", fastLib, "fast/c19.go", "fast/c06.go", "fast/c13.go", "fast/c07.go")},
 		Redirect: map[string]string{"github.com/cosmos72/gomacro/gls.GoID": "vhModelGoID"},
 		Explain: "the real Code.Exec / exec / execWithFlags / reExecWithFlags executor loops, spinInterrupt, Run.interrupt, Run.applyAsyncSignal, restore and base.Signals.IsEmpty are executed symbolically on compiled-code lists made of harness statements; the statement call at which the asynchronous interrupt arrives is enumerated over every position of the unrolled loops"})
 	add(&PropConfig{ID: "C07", Prefix: "VH_C07_", Sets: []HarnessSet{hfiles("fast", fastLib, "fast/c19.go", "fast/c06.go", "fast/c13.go", "fast/c07.go")},
